@@ -38,7 +38,7 @@ def check(tier, seed, replay=None):
     run = Run("C14", tier, seed)
     run.cov["rule"] = ("(a) concurrency: one File value (schemas with 0-3 imports, several go_packages with types used from each, separate and combined mode) shared by 16 goroutines calling "
                        "Generate and Validate repeatedly in a race-detector build: all outputs must be byte-identical, the File deep-equal before / after, no data race reported; "
-                       "(a') one File under 32 different option sets (private / tags / pointer receivers / unsafe x import mode), sequentially and from 8 goroutines: every output must equal what a freshly parsed File gives under the same options, File unchanged; (b) repetition: ReadFile, Validate and Format repeated 12 times on every testdata file and on generated schemas: identical File, identical bytes; "
+                       "(a') one File under 32 different option sets (private / tags / pointer receivers / unsafe x import mode), sequentially and from 8 goroutines: every output must equal what a freshly parsed File gives under the same options, File unchanged; (b) repetition: ReadFile, Validate and Format repeated 12 times on every testdata file and on generated schemas: identical File, identical bytes; (c) the same three on 24 texts at a time from 12 goroutines at once (race detector on): every result equal to the call made alone; "
                        "the text of a Validate error may differ only as listed in the known finding; distinct = distinct (schema, mode)")
     run.cov["trusted_base"] = TRUSTED_BASE_COMMON + ["the Go race detector as the witness of data races; the slice model of coq/sys/Sys.v (backing array, len, cap; append in place iff it fits)",
                                                      "translator T5 (go/cmd/t5): which receiver slices File.Generate appends to and whether each is cut to cap = len (or copied) before every append - decided "
@@ -112,6 +112,13 @@ def check(tier, seed, replay=None):
         for p in files:
             ops.append("PURE %s %d" % (p, 12 if "multi" not in os.path.basename(p) else 40))
             metas.append(("repeat", os.path.relpath(p, REPO) if p.startswith(REPO) else os.path.basename(p)))
+        # (c) ReadFile / Validate / Format of many texts at once from 12 goroutines (they share no File, only whatever state the package keeps): every result must be
+        #     what the same call gives alone
+        accepted = [p for p in files if "multi" not in os.path.basename(p)]
+        for k in range(0, len(accepted), 24):
+            grp = accepted[k:k + 24]
+            ops.append("CPURE 12 %d %s" % (3 if tier != "thorough" else 8, ",".join(grp)))
+            metas.append(("concurrent-pure", "%d texts from %s" % (len(grp), os.path.basename(grp[0]))))
         res = run_lines("GORACE=halt_on_error=1 exec %s" % gx, ops, timeout=1500)
         race_log = ""
     finally:
@@ -126,6 +133,9 @@ def check(tier, seed, replay=None):
         elif kind == "mixed-options":
             if g != "mix sequential-differing=0 concurrent-differing=0 file-changed=false":
                 bad = "Generate on one File under different option sets: %s" % g
+        elif kind == "concurrent-pure":
+            if g != "cpure differing=[]":
+                bad = "ReadFile / Validate / Format called from 12 goroutines at once give results that differ from the same calls made alone: %s" % g
         elif kind == "concurrent-generate":
             if "differing=0" not in g or "file-changed=false" not in g:
                 bad = "concurrent Generate calls on one File: %s" % g
